@@ -50,14 +50,23 @@ Qed.
 Lemma fanout_spec : forall cs i t it skip cs' en, fanout cs i t it skip = (cs', en) ->
   length cs' = length cs /\
   forall k ch', nth_error cs' k = Some ch' ->
-    exists ch, nth_error cs k = Some ch /\ (ch' = ch \/ ch' = ch_enq ch it).
+    exists ch, nth_error cs k = Some ch /\
+      (ch' = ch \/ (ch' = ch_enq ch it /\ registered ch = true /\ length (q ch) < qcap)).
 Proof.
   induction cs as [|ch rest IH]; intros i t it skip cs' en H; cbn in H.
   - inversion H; subst. split; [reflexivity|]. intros k ch' E. destruct k; discriminate.
   - destruct (fanout rest (S i) t it skip) as [rest' en'] eqn:F. destruct (IH _ _ _ _ _ _ F) as [L N].
-    destruct (targets t i && enq_ok ch (existsb (Nat.eqb i) skip)); inversion H; subst; (split; [cbn; f_equal; exact L|]);
-      intros [|k] ch' E; cbn in *; try (inversion E; subst; eexists; split; [reflexivity|auto]); apply N; exact E.
+    destruct (targets t i && enq_ok ch (existsb (Nat.eqb i) skip)) eqn:G; inversion H; subst; (split; [cbn; f_equal; exact L|]);
+      intros [|k] ch' E; cbn in *; try (apply N; exact E).
+    + inversion E; subst. eexists; split; [reflexivity|]. right. apply andb_prop in G. destruct G as [_ G].
+      unfold enq_ok in G. apply andb_prop in G. destruct G as [G G3]. apply andb_prop in G. destruct G as [G1 G2].
+      apply Nat.ltb_lt in G3. auto.
+    + inversion E; subst. eexists; split; [reflexivity|auto].
 Qed.
+
+Lemma capply_enq tm ch it : registered ch = true -> length (q ch) < qcap ->
+  capply tm (AEnq it) ch = Some (ch_enq ch it, []).
+Proof. intros R L. cbn [capply]. rewrite R. apply Nat.ltb_lt in L. rewrite L. reflexivity. Qed.
 
 Section ChanInvariant.
 Variable P : bool -> chan -> Prop.
@@ -99,8 +108,8 @@ Proof.
     match type of H with (if ?b then _ else _) = _ => destruct b end; [|discriminate].
     destruct (fanout (chans s) 0 t it skip) as [cs' en] eqn:F. inversion H; subst. clear H.
     destruct (fanout_spec _ _ _ _ _ _ _ F) as [_ N]. intros c ch' Hc. cbn in *.
-    destruct (N c ch' Hc) as [ch [Hch [E|E]]]; subst ch'; [apply (A c ch Hch)|].
-    eapply (P_step (term s) (AEnq it)); [apply (A c ch Hch)|reflexivity].
+    destruct (N c ch' Hc) as [ch [Hch [E|(E & Rg & Lq)]]]; subst ch'; [apply (A c ch Hch)|].
+    eapply (P_step (term s) (AEnq it)); [apply (A c ch Hch)|apply capply_enq; assumption].
   - destruct (term s); inversion H; subst. exact A.
   - destruct (loop s); try discriminate. destruct (term s) eqn:T; [|discriminate]. inversion H; subst.
     intros c ch N. cbn in *. specialize (A c ch N). rewrite T in A. exact A.
@@ -181,7 +190,7 @@ Proof.
       match type of H with (if ?b then _ else _) = _ => destruct b end; [|discriminate].
       destruct (fanout (chans s0) 0 t it skip) as [cs' en] eqn:F. inversion H; subst. clear H.
       destruct (fanout_spec _ _ _ _ _ _ _ F) as [Len N]. unfold log_ok. cbn [log chans]. split.
-      * intros c ch' Hc. destruct (N c ch' Hc) as [ch [Hch [E|E]]]; subst ch'; rewrite (L c ch Hch); reflexivity.
+      * intros c ch' Hc. destruct (N c ch' Hc) as [ch [Hch [E|(E & _)]]]; subst ch'; rewrite (L c ch Hch); reflexivity.
       * intros c e I. rewrite Len. apply (B c e I).
     + destruct (term s0); inversion H; subst. split; assumption.
     + destruct (loop s0); try discriminate. destruct (term s0); [|discriminate]. inversion H; subst. split; assumption.
